@@ -109,7 +109,16 @@ func hostProxy(ctx context.Context, host, shimPath string, injectShimCode, force
 			DialTLSContext: func(ctx context.Context, network string, addr string, cfg *tls.Config) (net.Conn, error) {
 				return net.Dial(network, addr)
 			},
+			// Responses are relayed as they are; see below.
+			DisableCompression: true,
 		}
+	} else if defaultTransport, ok := http.DefaultTransport.(*http.Transport); ok {
+		// Responses are relayed as they are. Without this the transport asks the backend for a
+		// compressed response whenever the client did not mention compression at all, and then
+		// hands us the decompressed body without its Content-Encoding.
+		transport := defaultTransport.Clone()
+		transport.DisableCompression = true
+		hostProxy.Transport = transport
 	}
 	hostProxy.FlushInterval = 100 * time.Millisecond
 	var h http.Handler = hostProxy
